@@ -24,6 +24,10 @@ HOOK_COMMITS = ["3f1b53b", "bda8058", "3f6df55"]
 # properties deliberately not claimed, with the reason
 NOT_APPLICABLE = {}
 
+# checks whose monitor has been calibrated silent on the unchanged (repaired) tree and validated
+# against mutants; only these are listed under MANIFEST.checks
+CLAIMED = ["C01", "C02", "C03", "C04", "C05", "C07", "C09", "C12", "C13", "C19"]
+
 CHECKS = {}
 for _p in sorted(glob.glob(os.path.join(_HERE, "checks", "C*.py"))):
     _name = os.path.basename(_p)[:-3]
